@@ -97,10 +97,14 @@ func (rp *replayer) replay(r *HarnessResult, c *Candidate) {
 
 // engineReplay re-executes the harness with all symbolic inputs fixed.
 func (rp *replayer) engineReplay(h *Harness, c *Candidate) (confirmed bool, out string) {
-	pkg := rp.ld.pkgs[h.Pkg]
+	return concreteRun(rp.ld, h, c)
+}
+
+func concreteRun(ld *Loaded, h *Harness, c *Candidate) (confirmed bool, out string) {
+	pkg := ld.pkgs[h.Pkg]
 	fn := pkg.Func(h.Name)
 	res := &HarnessResult{H: h, Obls: map[string]*OblStat{}, Reaches: map[string]int{}, Funcs: map[string]bool{}, Stubs: map[string]bool{}, UnwindFail: map[string]bool{}}
-	ex := newExec(rp.ld, h, nil, res, nil, nil, func([]int) {})
+	ex := newExec(ld, h, nil, res, nil, nil, func([]int) {})
 	ex.sess.concrete = true
 	ex.sess.model = c.Model
 	ex.explicitIn = append([]int{}, c.Explicit...)
